@@ -353,6 +353,25 @@ Proof.
   - rewrite E. left. reflexivity.
 Qed.
 
+(* the monitor judges the fit first: a silent monitor on a rule-checker case means the fit it was given is a partition, so the
+   hypothesis of rule_removal_not_held is one the check establishes on every case *)
+Lemma monitor_silent_fit_wf c :
+  monitor c = None -> fit_judged (fst c) = true -> fit_wf (i_region (fst c)) (i_fit (fst c)) = true.
+Proof.
+  unfold monitor. intros H J. rewrite J in H. cbn in H.
+  destruct (fit_wf (i_region (fst c)) (i_fit (fst c))); [reflexivity|discriminate].
+Qed.
+
+Theorem monitor_silent_removal_not_held inp impl st s :
+  monitor (inp, impl) = None -> fit_judged inp = true ->
+  In (Some (st, ARemove s)) (rule_check inp) ->
+  exists o, In o (fit_orphans (i_fit inp)) /\ p_store o = s /\
+            forall rf, In rf (fit_rules (i_fit inp)) -> ~ In (p_id o) (map p_id (rf_peers rf)).
+Proof.
+  intros M J H. apply (rule_removal_not_held inp st s); [|exact H].
+  exact (monitor_silent_fit_wf (inp, impl) M J).
+Qed.
+
 (* through CheckRegion: one of the two justifications *)
 Theorem controller_removes_only_justified inp st s :
   In (Some (st, ARemove s)) (controller_check inp) ->
